@@ -117,7 +117,9 @@ Handle(cfg, scope, h, hdr, b) ==
 ----------------------------------------------------------------------------
 (* C10, stated on the transcript of a session (independent of the handler structure):  *)
 (* t = [stage, user]: what the server has asked for so far, as seen in its replies.     *)
-T0 == [stage |-> "idle", user |-> <<>>]
+\* aok: the session was opened by a START the ASCII login accepts (action LOGIN, type ASCII, minor version 0)
+T0 == [stage |-> "idle", user |-> <<>>, aok |-> FALSE]
+AsciiStartOK(hdr, b) == hdr.ty = 1 /\ AsStart(b).cls = "ok" /\ AsStart(b).v.action = 1 /\ AsStart(b).v.atype = 1 /\ hdr.min = 0
 \* a request whose body parses under two request layouts is left to the ambiguity rule
 Ambiguous(b) == AsStart(b).cls = "ok" /\ AsCont(b).cls = "ok"
 CredentialOK(cfg, scope, user, pw) ==
@@ -126,7 +128,7 @@ CredentialOK(cfg, scope, user, pw) ==
 MayPass(cfg, scope, t, hdr, b) ==
    \/ /\ t.stage = "idle" /\ hdr.ty = 1 /\ AsStart(b).cls = "ok"
       /\ LET s == AsStart(b).v IN s.action = 1 /\ s.atype = 2 /\ hdr.min = 1 /\ CredentialOK(cfg, scope, s.user, s.data)
-   \/ /\ t.stage = "asked_pass" /\ AsCont(b).cls = "ok" /\ ~Abort(b)
+   \/ /\ t.stage = "asked_pass" /\ t.aok /\ AsCont(b).cls = "ok" /\ ~Abort(b)
       /\ CredentialOK(cfg, scope, t.user, AsCont(b).v.msg)
 \* the password a request presents (C18): the user message answering GETPASS, or the data field of a PAP START
 PwOfReq(t, hdr, b) ==
@@ -136,9 +138,10 @@ PwOfReq(t, hdr, b) ==
    ELSE <<>>
 \* transcript update from an observed reply (status, to request b in stage t)
 TNext(t, hdr, b, status) ==
-   IF status = 4 THEN [stage |-> "asked_user", user |-> <<>>]
+   LET aok == IF t.stage = "idle" THEN AsciiStartOK(hdr, b) ELSE t.aok IN
+   IF status = 4 THEN [stage |-> "asked_user", user |-> <<>>, aok |-> aok]
    ELSE IF status = 5
-        THEN [stage |-> "asked_pass",
+        THEN [stage |-> "asked_pass", aok |-> aok,
               user |-> IF t.stage = "idle" /\ AsStart(b).cls = "ok" THEN AsStart(b).v.user
                        ELSE IF t.stage = "asked_user" /\ AsCont(b).cls = "ok" THEN AsCont(b).v.msg
                        ELSE t.user]
